@@ -121,6 +121,9 @@ void h_lcm64_contract(void)
 #ifndef GCD_SHIFT
 #define GCD_SHIFT 32
 #endif
+#ifndef GCD_BITS32
+#define GCD_BITS32 (GCD_BITS < 32 - GCD_SHIFT / 2 ? GCD_BITS : 32 - GCD_SHIFT / 2)
+#endif
 void h_gcd64_shifted(void)
 {
     IN(a_u64, a); IN(a_u64, b);
@@ -132,7 +135,7 @@ void h_gcd64_shifted(void)
 void h_gcd32_shifted(void)
 {
     IN(a_u32, a); IN(a_u32, b);
-    ASSUME(a < (1u << GCD_BITS) && b < (1u << GCD_BITS));
+    ASSUME(a < (1u << GCD_BITS32) && b < (1u << GCD_BITS32));
     a_u32 g = a_u32_gcd(a, b);
     REACHED();
     CHECK(a_u32_gcd(a << (GCD_SHIFT / 2), b << (GCD_SHIFT / 2)) == g << (GCD_SHIFT / 2), "gcd32.common-power-of-two-factor");
